@@ -46,6 +46,20 @@ m("c09-unary-binds-looser", "milu/src/parser.rs", 'map(nom_tuple((alt((tag("!"),
 m("c09-cond-left-assoc", "milu/src/parser.rs", "                terminated(op_1,ws(tag(\"?\"))),\n                terminated(op_0,ws(tag(\":\"))),\n                op_0", "                terminated(op_1,ws(tag(\"?\"))),\n                terminated(op_0,ws(tag(\":\"))),\n                op_1", ["C09"])
 m("c09-mod-is-div", "milu/src/parser.rs", '"%" => Mod::make_call(p1, p2).into(),', '"%" => Divide::make_call(p1, p2).into(),', ["C09"])
 
+# ---- C08
+m("c08-type-eq-int-str", "milu/src/script.rs", "            (String, String) => true,", "            (String, String) => true,\n            (Integer, String) => true,", ["C08"])
+m("c08-if-no-branch-check", "milu/src/script/stdlib.rs", "        match yes.unify(&no) {\n            Some(t) => Ok(t),\n            None => bail!(\"Condition return type must be same: {:?} {:?}\", yes, no),\n        }", "        let _ = no;\n        Ok(yes)", ["C08"])
+m("c08-minus-is-plus", "milu/src/script/stdlib.rs", 'checked_int_op!(Minus, "-", i64::checked_sub);', 'checked_int_op!(Minus, "-", i64::checked_add);', ["C08"])
+m("c08-member-raw-elements", "milu/src/script/stdlib.rs", "let iter = vec.iter().map(|v| v.real_value_of(ctx.clone()));", "let iter = vec.iter().map(|v| v.value_of(ctx.clone()));", ["C08"])
+m("c08-port-string", "src/rules/script_ext.rs", '            "port" => Ok(Type::Integer),', '            "port" => Ok(Type::String),', ["C08"])
+m("c08-div-unchecked", "milu/src/script/stdlib.rs", '            if b == 0 {\n                bail!("division by zero: {} {} {}", a, $op, b)\n            }', '', ["C08"])
+m("c08-shift-masked", "milu/src/script/stdlib.rs", 'checked_int_op!(ShiftLeft, "<<", |a, b| shift_count(b).and_then(|b| a.checked_shl(b)));', 'checked_int_op!(ShiftLeft, "<<", |a, b| Some(a.wrapping_shl(b as u32 + 1)));', ["C08"])
+m("c08-and-not-lazy", "milu/src/script/stdlib.rs", "    let ret:bool = a && b.real_value_of(ctx)?.try_into()?;", "    let b:bool = b.real_value_of(ctx)?.try_into()?;\n    let ret:bool = a && b;", ["C08"])
+m("c08-tuple-access-no-check", "milu/src/script/stdlib.rs", '                if *index < 0 || *index as usize >= t.len() {\n                    bail!("tuple index out of range: {}", index)\n                }\n                Ok(t.remove(*index as usize))', '                Ok(t.remove(*index as usize))', ["C08"])
+m("c08-lesser-is-le", "milu/src/script/stdlib.rs", "compare_op!(Lesser, <);", "compare_op!(Lesser, <=);", ["C08"])
+m("c08-index-raw-member", "milu/src/script/stdlib.rs", "        obj.get(index)?.real_value_of(ctx)", "        obj.get(index)?.value_of(ctx)", ["C08"])
+m("c08-to-integer-any", "milu/src/script/stdlib.rs", "function!(ToInteger(s: String)=>Integer, {", "function!(ToInteger(s: Any)=>Integer, {", ["C08"])
+
 def run(name, file, old, new, props):
     path = os.path.join("/repo", file)
     src = open(path).read()
